@@ -14,7 +14,7 @@ What is proved for ALL inputs (no bounds):
 it is kernel-checked on the nested instances `nested_instances` (depth 1–3, every construct)
 and tied to the real code by the harness on thousands of generated schemas per run.
 -/
-import Rpft.Lemmas.Infer
+import Rpft.Lemmas.InferNested
 import Rpft.Gen.Tables
 set_option linter.unusedSimpArgs false
 set_option linter.unusedVariables false
@@ -73,6 +73,19 @@ example : InFamily [("a".toList, .int, .int 5), ("b c".toList, .list .bool, .lis
   refine ⟨by decide, ?_⟩
   unfold Flat
   decide
+
+/-- **The nested round trip (main theorem, all schemas).**  Every schema of the family — basic
+fields with defaults, `list` / `List[T]`, sub-records `a.b`, indexed lists `a.1, a.2` with
+per-index defaults, lists of records `a.1.x`, lists of lists, nested to ANY depth and of any
+width — rendered to its canonical header list is inferred back as exactly that schema: same
+field names in the same order, same types, same defaults.  By induction on the size of the
+type (`Lemmas/InferNested.lean`: `nested_roundtrip`, `level_exact`), no bound on depth. -/
+theorem infer_render (sch : Schema) (h : InFamily sch) :
+    infer (renderHeaders sch) = .ok (.model sch) :=
+  infer_render_family sch h
+
+/-- the full statement is proved -/
+theorem C18_full_holds : C18_full := infer_render
 
 /-- **Cell independence**: with a blank `data_model` the row model is computed from the header
 row only; two sheets with the same headers get the same model whatever their cells. -/
